@@ -65,6 +65,10 @@ CLAIMED = {
   "text": "Partial: contracts on the real text of TransactionRpcImpl::{fetch_transaction, get_transaction} and ChainRpcImpl::fetch_header (service.rs): the reported status is exactly the function of (stored?, fetch-table entry) the property states (fetched / not_found+re-add / fetching{first_sent} / added{ts}), an existing added or in-flight entry is never reset by a call (gate on add_fetch_*), committed is reported iff the store has the transaction and then with the hash of the header the store returns for it; together with the fetch_gate gates (not_found only after a verified matching response).",
   "note": "Peers' fetch-table maintenance on timeout/disconnect and the store writers behind get_transaction_with_header are not under contract.",
   "ref": "DESIGN.md 5-C16"},
+ "C17": {
+  "text": "Partial (lock discipline only): gate-by-precondition over the real text of the four operations the property names - BlockFilterRpcImpl::set_scripts, BlockFiltersProcess::execute (with FilterProtocol::update_min_filtered_block_number), the SendBlock arm of SyncProtocol::received, and the fork rollback in LightClientProtocol::commit_prove_state: every mutation of the sync progress (update_filter_scripts, add_matched_blocks, remove_matched_blocks, update_block_number, update_min_filtered_block_number, filter_block, rollback_to_block) is reachable only after the handler has taken the write lock of Peers::matched_blocks (evidence produced by RwLock::write().expect()).",
+  "note": "NOT decided: that the guard is still alive at the mutation (Rust scoping; an explicit early drop would not be seen), serialisability of the outcomes, snapshot consistency of readers, deadlock freedom - thread interleavings are outside contract-based verification of sequential code.",
+  "ref": "DESIGN.md 5-C17"},
  "C18": {
   "text": "Contracts on the real text of verify_tx, resolve_tx (its cache closure lambda-lifted), ContextualTransactionVerifier::{new, verify} (verify.rs): Ok(cycles) only with structural verification, pairwise distinct inputs, every input and dep resolved to a cell the client's provider reported live, since / capacity / script verification at the stored tip, cycles = what the scripts consumed. And contracts on the real text of send_transaction, estimate_cycles, get_transaction (pending branch) and PendingTxs::{new, push, get}: a transaction enters the pending pool only with the evidence that verify_tx accepted exactly it with exactly those cycles; estimate_cycles reports those cycles; the pool never exceeds its limit, the newest entry is the pushed transaction with an empty announced-peer set and the oldest entry is the one evicted.",
   "note": "The five verifiers and the cell provider are dependency / storage code (evidence-producing shims); the once-per-peer broadcast function is outside the Verus subset and not covered.",
@@ -75,7 +79,6 @@ NOT_APPLICABLE = {
  "C05": "liveness/convergence over unbounded histories, random samples and delivery orders; no per-call postcondition form (the per-call fragment is proved under C14)",
  "C07": "the quorum/finalisation logic is a HashMap/closure pipeline outside the Verus subset and intractable for Kani on the real types; only supporting lemmas are provable and they do not decide the property",
  "C08": "quantifies over crash points between writes plus recovery; function contracts describe completed calls only",
- "C17": "thread interleavings: no thread support in Kani, and the code does not use Verus's concurrency types",
 }
 
 PENDING = "not yet claimed in this revision (planned, see DESIGN.md section 5)"
